@@ -29,6 +29,7 @@ type Program struct {
 	Axioms    []*Axiom
 	Files     []*ContractFile
 	LoadErrs  []string
+	gtab      globalTable
 }
 
 func funcKey(fn *ssa.Function) string {
